@@ -15,7 +15,7 @@ COLOURS = [
     ("#123", (0x11, 0x22, 0x33, 255)), ("orange", (255, 165, 0, 255)), ("#808080", (128, 128, 128, 255)), ("indigo", (75, 0, 130, 255)),
 ]
 OPAQUE = [c for c in COLOURS if c[1] is not None and c[1][3] == 255]
-WIDTHS = [("2", 2.0), ("0.5", 0.5), ("3px", 3.0), ("1.5pt", 2.0), ("0", 0.0), ("4.25", 4.25), ("1pc", 16.0), ("7", 7.0), ("0.125", 0.125), ("10", 10.0), ("1.75", 1.75), ("6px", 6.0)]
+WIDTHS = [("2", 2.0), ("0.5", 0.5), ("3px", 3.0), ("1.5pt", 2.0), ("0", 0.0), ("4.25", 4.25), ("1pc", 16.0), ("7", 7.0), ("0.125", 0.125), ("10", 10.0), ("1.75", 1.75), ("6px", 6.0), ("5%", ("%", 5.0)), ("2.5%", ("%", 2.5))]
 OPACITIES = [("0.5", 0.5), ("1", 1.0), ("0", 0.0), (".25", 0.25), ("0.75", 0.75), ("0.1", 0.1), ("0.9", 0.9)]
 PROPS = ["fill", "stroke", "stroke-width", "fill-opacity", "stroke-opacity", "color"]
 SOURCES = ["attr", "*", "type", ".class", "type.class", "#id", "list", "inline"]
